@@ -63,7 +63,7 @@ def decorations():
     return D
 
 
-BASES = ["boxes", "box_loft", "cylinder", "hemi_box"]
+BASES = ["boxes", "box_loft", "cylinder", "hemi_box", "slit"]
 
 
 def target(d):
@@ -99,7 +99,7 @@ def cases(tier, seed):
     idx = list(range(len(D)))
     def ok(base, prog):
         dels = [D[i] for i in prog if D[i][0] == "delete"]
-        if base not in ("boxes", "box_loft"):
+        if base not in ("boxes", "box_loft", "slit"):
             # a merged (slave) patch on single operations of a shape duplicates their vertices and cuts the
             # shape's chops off from them: chopping would be the script's job, which this alphabet does not do
             kinds = {D[i][0] for i in prog}
@@ -140,9 +140,11 @@ def build_base(base):
     import classy_blocks as cb
 
     ents = []
-    if base == "boxes":
+    if base in ("boxes", "slit"):
+        # "slit": two boxes that do not touch, 0.2 mm apart (distinct model points far closer than the cell size)
         for x in (0, 1):
-            b = cb.Box([x, 0, 0], [x + 1, 1, 1])
+            gap = 2e-4 * x if base == "slit" else 0.0
+            b = cb.Box([x + gap, 0, 0], [x + 1 + gap, 1, 1])
             for a, c in enumerate((2, 3, 4)):
                 b.chop(a, count=c)
             ents.append(b)
@@ -321,7 +323,7 @@ def run_case(case):
             vert_of[(o, c)] = blk["v"][c]
         if blk["zone"] != decl.zone[o]:
             bad("cell-zone", f"operation {o}: zone {blk['zone']!r}, declared {decl.zone[o]!r}")
-        if case["base"] in ("boxes",) or (case["base"] == "box_loft" and o == 0) or (case["base"] == "hemi_box" and o == len(ops) - 1):
+        if case["base"] in ("boxes", "slit") or (case["base"] == "box_loft" and o == 0) or (case["base"] == "hemi_box" and o == len(ops) - 1):
             if blk["counts"] != [2, 3, 4] and case["base"] != "box_loft":
                 bad("hex-counts", f"operation {o}: {blk['counts']}, chopped (2 3 4)")
         # counts and gradings: the model holds one grading per edge of the block (between two of its corners, in
